@@ -2,7 +2,7 @@
 (* Agent ingestion of one metric event (property C12).
 
    Code transcribed (pinned tree):
-     cmd/statshouse/worker.go         HandleMetrics, fillMetricMeta       -> Lookup
+     cmd/statshouse/worker.go         HandleMetrics, fillMetricMeta       -> MetricOf(m).lookup / Decide
      internal/agent/agent_mapping.go  Agent.Map, mapAllTags               -> MapTags / MapStep
      internal/data_model/validation.go MapValidateTag, ValidateMetricData -> MapStep / ValidateData
      internal/format/format.go        ValidateCounter, ValidateValue      -> ValidateCounter/Value
@@ -13,15 +13,16 @@
                                       ItemValue.Merge                     -> Contrib / MergeAgg
 
    An event is a tuple of *classes*: metric description, counter, payload (values, uniques,
-   histogram), tag list, timestamp.  The classes are defined below by name; the cfg files pick
-   the subsets that TLC enumerates.  Numbers are records [k, n, d]: k = "fin" is the rational
+   histogram), tag list, timestamp.  The classes are defined below by name; products of subsets
+   of them form the blocks (Block) that the cfg files select for enumeration.  Numbers are records [k, n, d]: k = "fin" is the rational
    n/d, every other k is a special float class (nan, pinf, ninf, big = finite above
    MaxFloat32, nbig = finite below -MaxFloat32, maxf = exactly MaxFloat32, nmaxf).
 
    State: the agent's shard buckets projected to `rows` (metric rows with their aggregates)
    and `stats` (ingestion-status rows with their counts); Ingest is the only action (one call
-   of worker.HandleMetrics).  With MaxOps = 1 TLC enumerates the decision table; with
-   MaxOps > 1 it also checks that rows and status records accumulate.
+   of worker.HandleMetrics).  Blocks of length 1 enumerate the decision table; longer blocks
+   and the scripted (seeded random) behaviours also check that rows and status records
+   accumulate.
 
    The PROPERTY section states C12 from its text, independently of the order in which the
    code checks things (Valid, TrueReasons, DocSemantics); the invariants say that the
@@ -40,9 +41,9 @@ VARIABLES rows,   \* row key -> aggregate
           nAcc, nRej,   \* ghost: events accepted / rejected so far
           gcnt,   \* ghost: sum of the exact counts contributed so far
           last,   \* ghost: the last event with its decision (what the invariants look at)
-          first,  \* <<block, metric class, counter class, 0>> of the behaviour's first event, or
-                  \* <<"script", "", "", j>>: behaviour Script[j]; chosen initially (an input; it
-                  \* also lets TLC's workers share the enumeration)
+          first,  \* <<block, metric class, counter class, <<>> >> of the behaviour's first event, or
+                  \* <<"script", "", "", sc>>: the scripted behaviour sc; chosen initially (an input;
+                  \* it also lets TLC's workers share the enumeration)
           hist
 
 vars == <<rows, stats, nAcc, nRej, gcnt, last, first, hist>>
@@ -279,8 +280,9 @@ Block(b) ==
     [] b = "seq"   -> B({"plain", "notfound"}, {"c0", "c6"}, {"none", "v123", "u3"}, {"none", "badname"}, {"cur"}, 2)
     [] b = "seq3"  -> B({"plain"}, {"c0", "c6"}, {"none", "v123", "u3"}, {"none"}, {"cur"}, 3)
     [] b = "seqbig" -> B({"plain", "dual", "notfound"}, {"c0", "c6", "cnan"}, {"none", "v123", "u3", "h2"},
-                         {"none", "top"}, {"cur", "fut4"}, 2)
-AllBlocks == {"data", "tags", "meta", "dataq", "metaq", "cross", "seq", "seq3", "seqbig"}
+                         {"none", "top"}, {"cur"}, 2)
+    [] b = "seqts" -> B({"dual", "res5"}, {"c0"}, {"v123", "u3"}, {"top"}, {"cur", "past", "fut4"}, 2)
+AllBlocks == {"data", "tags", "meta", "dataq", "metaq", "cross", "seq", "seq3", "seqbig", "seqts"}
 ASSUME /\ Blocks \subseteq AllBlocks
        /\ \A b \in AllBlocks : /\ Block(b).metrics \subseteq AllMetrics /\ Block(b).counters \subseteq AllCounters
                                /\ Block(b).payloads \subseteq AllPayloads /\ Block(b).taglists \subseteq AllTagLists
@@ -500,8 +502,8 @@ IsErr(st) == st \notin {"OKCached", "WarnMapTagNameNotFound", "WarnMapTagNameFou
 
 Init == /\ rows = <<>> /\ stats = <<>> /\ nAcc = 0 /\ nRej = 0 /\ gcnt = F(0)
         /\ last = [any |-> FALSE] /\ hist = <<>>
-        /\ first \in UNION {{<<b, m, c, 0>> : m \in Block(b).metrics, c \in Block(b).counters} : b \in Blocks}
-                      \cup {<<"script", "", "", j>> : j \in DOMAIN Script}
+        /\ first \in UNION {{<<b, m, c, <<>> >> : m \in Block(b).metrics, c \in Block(b).counters} : b \in Blocks}
+                      \cup {<<"script", "", "", Script[j]>> : j \in DOMAIN Script}
 
 IngestCore(m, c, p, t, s) ==
   LET e  == Ev(m, c, p, t, s)
@@ -525,7 +527,7 @@ RowsOut(r)  == {[key |-> k, agg |-> r[k]] : k \in DOMAIN r}
 StatsOut(s) == {[key |-> k, n |-> s[k]] : k \in DOMAIN s}
 Ingest(m, c, p, t, s) ==
   /\ IngestCore(m, c, p, t, s)
-  /\ hist' = Append(hist, [a |-> "Ingest", b |-> first[1], j |-> first[4], m |-> m, c |-> c, p |-> p, t |-> t, s |-> s,
+  /\ hist' = Append(hist, [a |-> "Ingest", b |-> first[1], m |-> m, c |-> c, p |-> p, t |-> t, s |-> s,
                            ev |-> [ctr |-> last'.ev.ctr, v |-> last'.ev.v, u |-> last'.ev.u, h |-> last'.ev.h,
                                    tags |-> last'.ev.tags, ts |-> last'.ev.ts],
                            md |-> MetricOf(m),
@@ -547,7 +549,7 @@ TableNext ==
         /\ (hist # <<>> => s # "none")       \* rows of different wall-clock seconds do not merge
         /\ Ingest(m, c, p, t, s)
 ScriptNext ==
-  LET sc == Script[first[4]] IN
+  LET sc == first[4] IN
   /\ Len(hist) < Len(sc)
   /\ LET x == sc[Len(hist) + 1] IN
        /\ Assert(x[1] \in AllMetrics /\ x[2] \in AllCounters /\ x[3] \in AllPayloads /\ x[4] \in AllTagLists
